@@ -152,6 +152,8 @@ def impl(case):
         stray_resp = head_of(200, [("X-Req", "stray"), ("Content-Length", "3")]) + bytes([0x61 + req_index]) * 3
         stray_junk = bytes([0x61 + req_index]) * 5 + b"\r\n\r\n"
         hdrs = [("X-Req", str(req_index))]
+        if r.get("bighead"):
+            hdrs.append(("X-Pad", "p" * 9000))        # a head larger than the response's read buffer
         served.setdefault(req_index, []).append(r)
         fr = r["framing"]
         if r["bodyless"]:
@@ -237,6 +239,7 @@ def impl(case):
             return Peer(on_data)
 
     net = Net3()
+    net.tls_like = bool(case.get("tls"))          # sockets with a TLS layer's pending(): decrypted bytes that poll() does not see
 
     class FakeTime:
         @staticmethod
@@ -438,6 +441,11 @@ def one_case(rng):
         for r in replies:          # read1 is modelled for Content-Length framing only
             if r.get("framing") in ("chunked", "eof"):
                 r["framing"] = "len"
+    if rng.random() < 0.3:
+        for r in replies[:2 * k + 2]:
+            if r["kind"] == "resp" and rng.random() < 0.5:
+                r["bighead"] = True
+        return {"maxsize": rng.choice([1, 1, 2]), "reqs": reqs, "replies": replies, "tls": True}
     return {"maxsize": rng.choice([1, 1, 2]), "reqs": reqs, "replies": replies}
 
 
@@ -502,6 +510,18 @@ def cases(rng, tier):
                                                              {"head": False, "preload": False, "caller": ["read_all"]},
                                                              {"head": False, "preload": True, "caller": ["read_all"]}],
                                 "replies": [dict(PLAIN, first=first, late=True)] + [dict(PLAIN)] * 12})
+    # sockets with a TLS layer (bytes already decrypted are invisible to poll()): a reply whose head is larger than the response's
+    # read buffer, followed in the same record by stray bytes
+    for status, head in ((200, True), (204, False), (304, False), (200, False)):
+        for stray in ("same_resp", "same_junk", "sep_resp", "none"):
+            for keep in (True, False):
+                for big in (True, False):
+                    sh = {"kind": "resp", "status": status, "framing": "len", "n": 0 if status != 200 or head else 4, "first": 4, "sent": 4, "keep": keep,
+                          "stray": stray, "eof_after": False, "bighead": big}
+                    for c in (["read_all"], ["release"], ["close"]):
+                        out.append({"tls": True, "maxsize": 1, "reqs": [{"head": head, "preload": False, "caller": list(c)}, {"head": False, "preload": False, "caller": ["read_all"]},
+                                                                        {"head": False, "preload": True, "caller": ["read_all"]}],
+                                    "replies": [dict(sh)] + [dict(PLAIN)] * 12})
     n = 7000 if tier == "quick" else 200000
     for _ in range(n):
         out.append(one_case(rng))
